@@ -266,10 +266,10 @@ def check(run):
 
 
 LIB_LOOPS = ['counter_outputfunc_success', 'input_pingpong', 'counter_repeat', 'input_outputfunc_input',
-             'timer_expiry_loop', 'fsm_timed_state_loop']
+             'timer_expiry_loop', 'fsm_timed_state_loop', 'restore_loop']
 # loops closed by a transition that the block's own timer starts: nothing is raised to the sender of
 # the first event, the refusal shows as Circuit.error only
-TIMER_LOOPS = ('timer_expiry_loop', 'fsm_timed_state_loop')
+TIMER_LOOPS = ('timer_expiry_loop', 'fsm_timed_state_loop', 'restore_loop')
 
 
 def check_library_loops(run, only=None):
@@ -310,6 +310,13 @@ def check_library_loops(run, only=None):
                 Blink('t', on_exit_lit=edzed.Event('a', 'put', efilter=edzed.DataEdit.add(value=7)))
                 edzed.Input('a', initdef=0, on_output=edzed.Event('t', 'poke', efilter=edzed.not_from_undef))
                 start = ('t', 'go', {})
+            elif name == 'restore_loop':
+                # the loop closes while Input 'a' restores its saved state (initialisation by an event):
+                # a -> b -> a; the value that comes back is the same one
+                circuit.set_persistent_data({"<Input 'a'>": 5, 'edzed-stop-time': 0.0})
+                edzed.Input('a', initdef=0, persistent=True, on_output=edzed.Event('b', 'put'))
+                edzed.Input('b', on_output=edzed.Event('a', 'put'))
+                start = None
             elif name == 'counter_repeat':
                 edzed.Counter('cnt', on_output=edzed.Event('rpt', 'inc', efilter=edzed.not_from_undef))
                 edzed.Repeat('rpt', dest='cnt', etype='inc', interval=10)
@@ -320,9 +327,14 @@ def check_library_loops(run, only=None):
                                  on_success=edzed.Event('a', 'put'), on_error=None)
                 start = ('a', 'put', {'value': 1})
             task = asyncio.create_task(circuit.run_forever())
-            await circuit.wait_init()
             try:
-                edzed.ExtEvent(start[0], start[1]).send(**start[2])
+                await circuit.wait_init()
+            except Exception:              # noqa
+                if start is not None:
+                    raise
+            try:
+                if start is not None:
+                    edzed.ExtEvent(start[0], start[1]).send(**start[2])
                 obs['raised'] = None
             except Exception as err:       # noqa
                 obs['raised'] = type(err).__name__ + ': ' + str(err)[:80]
